@@ -156,9 +156,12 @@ def run_case(case, rng):
         inits = rng.sample(inits, rng.randint(1, len(inits)))
         clip = rng.choice([float("inf"), -1.0, 0.0, 0.5])
         inc = rng.random() < 0.5
+        from mon import defaults as Dflt
+        okw, _om = Dflt.rely_on_defaults(case, rng, "PlanToSubgoalOption", dict(include_mdp_absorbing_states=inc, name="sg",
+                                                                               max_nonterminal_pseudoreward=clip))
         opt = PlanToSubgoalOption(mdp=mdp, initial_states=inits, subgoals=subgoals,
-                                  planner=ValueIteration(max_residual=1e-10, max_iterations=3000),
-                                  include_mdp_absorbing_states=inc, name="sg", max_nonterminal_pseudoreward=clip)
+                                  planner=ValueIteration(max_residual=1e-10, max_iterations=3000), **okw)
+        Dflt.in_force(case, "PlanToSubgoalOption", opt, passed=okw)
         f3 = dict(facts, clip=clip, include_abs=inc)
         st = case.call("sub_task", lambda: opt.sub_task, facts=f3)
         if st is not case.FAIL:
